@@ -128,7 +128,7 @@ class Out:
         return ['exc', type(self.exc).__module__ + '.' + type(self.exc).__qualname__, canon.norm_msg(str(self.exc))]
 
 
-def real_eval(parser, src, names, budget=10 ** 6, rec=None, default_budget=False, ast_names=None, audit=False):
+def real_eval(parser, src, names, budget=60000, rec=None, default_budget=False, ast_names=None, audit=False):
     """One public eval call under a monitor record. Never lets an Exception escape; SimKill does (by design)."""
     rec = rec or monitors.Rec()
     rec.value_hooks = tuple(rec.value_hooks) + (_address_taint,)
